@@ -1,5 +1,5 @@
 /-
-  CM.Proofs.BagSem — what a node of a bag computes (`Den`), as a relation on the node-level model `CM.Model.Bag`,
+  CM.Proofs.BagSem — what a node of a bag computes (`BDen`), as a relation on the node-level model `CM.Model.Bag`,
   and the frame lemma: a region of a bag that is closed under predecessors computes the same in every bag that
   agrees with it on that region.
 -/
@@ -14,15 +14,15 @@ inductive BTerm where
   | node (e : EdgeK) (args : List BTerm)
   deriving Inhabited
 
-/-- `Den b n t`: the node `n` of the bag `b` computes `t`.  Identity edges are transparent (they forward value and
+/-- `BDen b n t`: the node `n` of the bag `b` computes `t`.  Identity edges are transparent (they forward value and
 hash of their parent: `IdentityEdge`).  The parents of an edge are paired with their terms by `zip`. -/
-inductive Den (b : Bag) : BNode → BTerm → Prop
-  | input {n} : n ∈ b.inputs → Den b n (.inp n.name)
-  | missing {n} : n ∉ b.inputs → (∀ e ∈ b.edges, e.out ≠ n) → Den b n (.missing n.name)
+inductive BDen (b : Bag) : BNode → BTerm → Prop
+  | input {n} : n ∈ b.inputs → BDen b n (.inp n.name)
+  | missing {n} : n ∉ b.inputs → (∀ e ∈ b.edges, e.out ≠ n) → BDen b n (.missing n.name)
   | ident {n p t} (e : BEdge) : n ∉ b.inputs → e ∈ b.edges → e.out = n → e.edge = .identity → e.ins = [p] →
-      Den b p t → Den b n t
+      BDen b p t → BDen b n t
   | edge {n ts} (e : BEdge) : n ∉ b.inputs → e ∈ b.edges → e.out = n → e.edge ≠ .identity →
-      e.ins.length = ts.length → (∀ p ∈ e.ins.zip ts, Den b p.1 p.2) → Den b n (.node e.edge ts)
+      e.ins.length = ts.length → (∀ p ∈ e.ins.zip ts, BDen b p.1 p.2) → BDen b n (.node e.edge ts)
 
 /-- rule 2 of `normalize_bag` as a proposition -/
 def SingleIncoming (es : List BEdge) : Prop :=
@@ -45,8 +45,8 @@ theorem zip_unique {α β : Type} (R : α → β → Prop) :
       (fun p hp => hr p (by simp [List.zip_cons_cons]; exact Or.inr hp))
     rw [hd, tl]
 
-theorem Den.det {b : Bag} (hs : SingleIncoming b.edges) {n : BNode} {t₁ t₂ : BTerm}
-    (h₁ : Den b n t₁) (h₂ : Den b n t₂) : t₁ = t₂ := by
+theorem BDen.det {b : Bag} (hs : SingleIncoming b.edges) {n : BNode} {t₁ t₂ : BTerm}
+    (h₁ : BDen b n t₁) (h₂ : BDen b n t₂) : t₁ = t₂ := by
   induction h₁ generalizing t₂ with
   | input hi =>
     cases h₂ with
@@ -85,7 +85,7 @@ theorem Den.det {b : Bag} (hs : SingleIncoming b.edges) {n : BNode} {t₁ t₂ :
     | edge e' _ he' ho' _ hlen' hl' =>
       have : e = e' := hs e he e' he' (ho.trans ho'.symm)
       subst this
-      rw [zip_unique (Den b) e.ins _ _ hlen hlen' (fun p hp t' ht' => ih p hp ht') hl']
+      rw [zip_unique (BDen b) e.ins _ _ hlen hlen' (fun p hp t' ht' => ih p hp ht') hl']
 
 /-! ### The frame lemma -/
 
@@ -96,8 +96,8 @@ structure AgreeOn (S : BNode → Prop) (b b' : Bag) : Prop where
   edges : ∀ e, S e.out → (e ∈ b'.edges ↔ e ∈ b.edges)
   closed : ∀ e ∈ b'.edges, S e.out → ∀ i ∈ e.ins, S i
 
-theorem Den.frame_to {S : BNode → Prop} {b b' : Bag} (ha : AgreeOn S b b') {n : BNode} {t : BTerm}
-    (hn : S n) (h : Den b' n t) : Den b n t := by
+theorem BDen.frame_to {S : BNode → Prop} {b b' : Bag} (ha : AgreeOn S b b') {n : BNode} {t : BTerm}
+    (hn : S n) (h : BDen b' n t) : BDen b n t := by
   induction h with
   | @input n hi => exact .input ((ha.inputs n hn).1 hi)
   | @missing n hni hno =>
@@ -121,8 +121,8 @@ theorem AgreeOn.symm {S : BNode → Prop} {b b' : Bag} (ha : AgreeOn S b b') : A
   closed e he hS := ha.closed e ((ha.edges e hS).2 he) hS
 
 /-- **Frame**: on a region on which two bags agree, every node computes the same. -/
-theorem Den.frame {S : BNode → Prop} {b b' : Bag} (ha : AgreeOn S b b') {n : BNode} (hn : S n) (t : BTerm) :
-    Den b' n t ↔ Den b n t :=
-  ⟨Den.frame_to ha hn, Den.frame_to ha.symm hn⟩
+theorem BDen.frame {S : BNode → Prop} {b b' : Bag} (ha : AgreeOn S b b') {n : BNode} (hn : S n) (t : BTerm) :
+    BDen b' n t ↔ BDen b n t :=
+  ⟨BDen.frame_to ha hn, BDen.frame_to ha.symm hn⟩
 
 end CM
